@@ -10,10 +10,11 @@ from __future__ import annotations
 
 from typing import Any
 
-from .absint import Raised
+from .absint import Interp, Raised, State
+from .absval import Opaque
 from .core import Run
 from .pymodel import PyModel
-from .virtual import H, World
+from .virtual import H, World, vpath
 
 FILE_H = "src/zorg/service/handlers.py"
 
@@ -363,3 +364,99 @@ def nextids_untouched(run: Run, model: PyModel, rid: str) -> None:
                       f"{label} performs {[t[0] for t in hits]} on .zorg/next_ids.json: the per-date ZID counters restart, and the next allocation on a date hands out a ZID that a note in some page already carries",
                       file=FILE_H, node=fq.node)
     run.floor("command runs checked for effects on next_ids.json", n, 2)
+    # ---- what else the two commands run before / around their handlers (opening the session, preparing the database file ...): every function reachable from the `db` runners that
+    #      removes or renames a file, other than the handlers' own slice run above, is run by itself in the same world -- text parameters that name the database hold its URL / path
+    #      inside the data directory, flags take both values -- and must leave the counter file alone as well
+    import ast as _ast
+
+    runners = [q for q in model.funcs if q.startswith("zorg.app.runners._run_db.")]
+    handled = set(model.reachable([f"{H}.create_database", f"{H}.reindex_database"]))
+    slice_ = sorted(set(model.reachable(runners)) - handled)
+    DESTRUCTIVE = {"unlink", "rmdir", "rmtree", "rename", "replace", "truncate", "move"}
+
+    def _msg_class(fi):
+        """The message class a handler is dispatched on (first parameter typed as an event / command class), else None."""
+        a0 = fi.node.args
+        ps = [x for x in a0.posonlyargs + a0.args if x.arg not in ("self", "cls")]
+        ann = _ast.unparse(ps[0].annotation) if ps and ps[0].annotation is not None else ""
+        return ann.split(".")[-1] if (ann.split(".")[0] in ("events", "commands") or ann.endswith(("Event", "Command"))) else None
+
+    # a message handler runs only if something that runs constructs its message class: closure of the call graph from the runners in which handlers are entered through
+    # the classes constructed so far (the bus dispatches on the type of the message), not through the dispatch tables
+    cg = model.callgraph()
+    live: set = set()
+    live_classes: set = set()
+    waiting: dict = {}
+    work = list(runners)
+    while work:
+        q0 = work.pop()
+        if q0 in live or q0 not in model.funcs:
+            continue
+        live.add(q0)
+        for c in _ast.walk(model.funcs[q0].node):
+            if isinstance(c, _ast.Call):
+                nm = c.func.id if isinstance(c.func, _ast.Name) else c.func.attr if isinstance(c.func, _ast.Attribute) else None
+                if nm and nm not in live_classes and nm.endswith(("Event", "Command")):
+                    live_classes.add(nm)
+                    work.extend(waiting.pop(nm, []))
+        for _, t in cg.get(q0, ()):
+            if t in live or t not in model.funcs:
+                continue
+            mc = _msg_class(model.funcs[t])
+            if mc is not None and mc not in live_classes:
+                waiting.setdefault(mc, []).append(t)
+            else:
+                work.append(t)
+    m = 0
+    for q in slice_:
+        f = model.funcs.get(q)
+        if f is None or not q.startswith("zorg."):
+            continue
+        calls = [c for c in _ast.walk(f.node) if isinstance(c, _ast.Call) and isinstance(c.func, _ast.Attribute) and c.func.attr in DESTRUCTIVE
+                 and not (c.func.attr == "replace" and (len(c.args) >= 2 or isinstance(c.func.value, _ast.Constant)))]  # str.replace(old, new) / dataclasses.replace(obj, **kw) are not file operations
+        calls = [c for c in calls if not (c.func.attr == "replace" and c.keywords and not c.args[1:])] if calls else calls
+        if not calls:
+            continue
+        a = f.node.args
+        params = [x for x in a.posonlyargs + a.args + a.kwonlyargs if x.arg not in ("self", "cls")]
+        if q not in live:
+            run.sample(dict(rule=rid, skipped=f.name, reason=f"handler of {_msg_class(f)}, which nothing the db commands run constructs"))
+            continue
+        m += 1
+        W = World(model, files={"A.zo": "hA"}, old_map={"A.zo": "hA"}, indexed={"A.zo"}, errors=set(), whitelist=[""])
+        db = f"{W.zdir}/.zorg/zorg.db"
+        choices = []
+        seedable = True
+        for x in params:
+            ann = _ast.unparse(x.annotation) if x.annotation is not None else ""
+            if ann == "bool":
+                choices.append((x.arg, [True, False]))
+            elif ann == "str" and "url" in x.arg.lower():
+                choices.append((x.arg, ["sqlite:///" + db]))
+            elif ("Path" in ann or ann == "str") and any(w in x.arg.lower() for w in ("db", "database")):
+                choices.append((x.arg, [vpath(db) if "Path" in ann else db]))
+            else:
+                seedable = False
+        if not seedable or len(f.node.args.posonlyargs + f.node.args.args) != len([x for x in f.node.args.posonlyargs + f.node.args.args]) or (f.cls is not None):
+            run.undecided(rid, f.name, f"`{f.name}` (reachable from the db runners) removes / renames files ({', '.join(sorted({c.func.attr for c in calls}))}) and cannot be run by itself: parameters {[x.arg for x in params]}")
+            continue
+        import itertools as _it
+
+        for combo in _it.product(*[vals for _, vals in choices]):
+            kw = {name: val for (name, _), val in zip(choices, combo)}
+            I = Interp(model, probes=W.probes(), max_states=2000)
+            try:
+                res = I.run_function(q, [], dict(kw), st=State())
+            except Exception as e:  # noqa: BLE001
+                run.undecided(rid, f.name, f"{f.name}({kw}): cannot interpret abstractly: {type(e).__name__}: {str(e)[:100]}")
+                continue
+            for v, st in res:
+                if st.imprecise or (isinstance(v, Raised)):
+                    run.undecided(rid, f.name, f"{f.name}: " + (f"raises {v.exc}" if isinstance(v, Raised) else "; ".join(st.imprecise[:2])))
+                    continue
+                hits = [t for t in st.trace if len(t) > 1 and t[1] == W.nextids_path and t[0] in ("unlink", "write_text", "open_w", "json_dump", "rename")]
+                shown = {k: (x.tag if isinstance(x, Opaque) else x) for k, x in kw.items()}
+                run.check(rid, f"{f.name}({shown}) leaves next_ids.json alone", not hits, f.name, f"{f.name}({shown}): {[t[0] for t in hits]} on next_ids.json",
+                          f"`{f.name}` -- run while `db create` / `db reindex` open their session -- performs {[t[0] for t in hits]} on .zorg/next_ids.json: the per-date ZID counters restart, and the next "
+                          "allocation on a date hands out a ZID that a note in some page already carries", file=f.file, node=calls[0])
+    run.floor("file-removing functions around the db handlers run by themselves", m, 1)
